@@ -240,7 +240,7 @@ theorem bglGammaAt_joint_perm (l : Loss) {rows rows' : List LRow} {h h' : List R
   have hr : rows.Perm rows' := zip_fst_perm hl hl' hp
   unfold bglGammaAt lossOf
   rw [sum_zipWith_zipWith, sum_zipWith_zipWith, countG_perm hr]
-  have hs := (hp.map (fun p : LRow × Rat => ind (p.1.g == g) * l.eval p.1.y p.2)).sum_eq
+  have hs := (hp.map (fun p : LRow × Rat => ind (p.1.g == g) * l.evalS p.1.y p.2)).sum_eq
   rw [hs]
 
 theorem probG_perm {rows rows' : List LRow} (hp : rows.Perm rows') (g : String) : probG rows g = probG rows' g := by
